@@ -577,11 +577,18 @@ Definition C07_case (rs : list crule) (ins : list bytes) (ys bs : list (list obs
   let kamb := existsb (fun r : sres * bool * bool => q_amb_used (fst (fst r)) || (q_amb (fst (fst r)) && negb (snd r))) rows in
   let ksp := fold_right N.max 0 (map (fun r : sres * bool * bool => q_sp (fst (fst r))) rows) in
   let kc := cond_class rs in
+  (* whatever the class: boreal's verdicts under default scan parameters must be its own verdicts with
+     compute_full_matches (a recorded deviation from libyara is the same deviation in both
+     configurations; a difference between the two is never explained by a class) *)
+  let self_ok := forallb2 (fun (bo : list obs) (d : list bool) =>
+                   forallb2 (fun (b : obs) (dd : bool) =>
+                               match b with Some (mb, _) => Bool.eqb mb dd | None => negb dd end) bo d) bs ds in
   (* a class of the conditions explains disagreements on verdicts only *)
   let waived := negb (kc =? 0) && negb (s_ver && b_ver) in
   let s := shape && s_str && (s_ver || waived) in
   let b := shape && b_str && (b_ver || waived) in
-  if waived then
+  if negb self_ok then (s, false, 0)
+  else if waived then
     if is_documented kc then (s, b, kc) else (s, false, kc)
   else if b && kfix then (s, false, K_FIXED_OFFSET)
   else if b && negb (ksp =? 0) then (s, false, ksp)
